@@ -37,15 +37,16 @@ type c10Rel struct {
 }
 
 type c10Type struct {
-	rels  []c10Rel
-	id    int
-	depth int
-	fo    string // Folang type expression
-	gt    string // Go type expression
-	decl  string // Folang declaration (records / unions)
-	vals  []c10Val
-	kind  string
-	comps []*c10Type
+	hasUnion bool // a union occurs somewhere in the type: the structure of its values varies with the case
+	rels     []c10Rel
+	id       int
+	depth    int
+	fo       string // Folang type expression
+	gt       string // Go type expression
+	decl     string // Folang declaration (records / unions)
+	vals     []c10Val
+	kind     string
+	comps    []*c10Type
 }
 
 // small returns up to n values with pairwise distinct canonical forms
@@ -59,6 +60,23 @@ func (t *c10Type) small(n int) []c10Val {
 			if len(out) == n {
 				break
 			}
+		}
+	}
+	return out
+}
+
+// smallPlus: small(n) plus the TWIN of its first value - a value with the same canonical description that was
+// produced differently (for slices: the empty literal and an empty Take result, i.e. non-nil and nil; for
+// composite types: the same structure over the component's twin).  Twins propagate one per level, so that equal
+// but differently produced values also meet INSIDE records, tuples, unions and slices.
+func (t *c10Type) smallPlus(n int) []c10Val {
+	out := t.small(n)
+	if len(out) == 0 {
+		return out
+	}
+	for _, v := range t.vals {
+		if v.canon == out[0].canon && v.goX != out[0].goX {
+			return append(out, v)
 		}
 	}
 	return out
@@ -102,14 +120,14 @@ func c10Build(id int, k int, comps []*c10Type) *c10Type {
 		t.kind = "pair"
 		t.fo = "(" + comps[0].fo + ")*(" + comps[1].fo + ")"
 		t.gt = "frt.Tuple2[" + comps[0].gt + ", " + comps[1].gt + "]"
-		for _, c := range cross(comps[0].small(2), comps[1].small(2)) {
+		for _, c := range cross(comps[0].smallPlus(2), comps[1].small(2)) {
 			t.vals = append(t.vals, c10Val{"(" + c[0].canon + "," + c[1].canon + ")", "frt.NewTuple2[" + comps[0].gt + ", " + comps[1].gt + "](" + c[0].goX + ", " + c[1].goX + ")", "tuple"})
 		}
 	case 1: // triple
 		t.kind = "triple"
 		t.fo = "(" + comps[0].fo + ")*(" + comps[1].fo + ")*(" + comps[2].fo + ")"
 		t.gt = "frt.Tuple3[" + comps[0].gt + ", " + comps[1].gt + ", " + comps[2].gt + "]"
-		for _, c := range cross(comps[0].small(2), comps[1].small(2), comps[2].small(2)) {
+		for _, c := range cross(comps[0].smallPlus(2), comps[1].small(2), comps[2].small(2)) {
 			t.vals = append(t.vals, c10Val{"(" + c[0].canon + "," + c[1].canon + "," + c[2].canon + ")",
 				"frt.NewTuple3[" + comps[0].gt + ", " + comps[1].gt + ", " + comps[2].gt + "](" + c[0].goX + ", " + c[1].goX + ", " + c[2].goX + ")", "tuple"})
 		}
@@ -123,7 +141,7 @@ func c10Build(id int, k int, comps []*c10Type) *c10Type {
 		name := fmt.Sprintf("R%d", id)
 		t.fo, t.gt = name, name
 		t.decl = fmt.Sprintf("type %s = {%s: %s; %s: %s}\n", name, f1, comps[0].fo, f2, comps[1].fo)
-		for _, c := range cross(comps[0].small(2), comps[1].small(2)) {
+		for _, c := range cross(comps[0].smallPlus(2), comps[1].small(2)) {
 			t.vals = append(t.vals, c10Val{name + "{" + c[0].canon + ";" + c[1].canon + "}", fmt.Sprintf("%s{%s: %s, %s: %s}", name, f1, c[0].goX, f2, c[1].goX), "record literal"})
 		}
 	case 4: // union: P of T | Q of U | N
@@ -131,21 +149,30 @@ func c10Build(id int, k int, comps []*c10Type) *c10Type {
 		name := fmt.Sprintf("U%d", id)
 		t.fo, t.gt = name, name
 		t.decl = fmt.Sprintf("type %s =\n  | P%d of %s\n  | Q%d of %s\n  | N%d\n", name, id, comps[0].fo, id, comps[1].fo, id)
-		for _, v := range comps[0].small(2) {
-			t.vals = append(t.vals, c10Val{"P(" + v.canon + ")", fmt.Sprintf("New_%s_P%d(%s)", name, id, v.goX), "constructor"})
+		// the cases interleaved (P, Q, N, P, Q): containers take the first 2-3 values of a component's domain, and
+		// those must be values of DIFFERENT cases (a union-typed field whose case varies from value to value)
+		ps, qs := comps[0].smallPlus(2), comps[1].small(2)
+		for i := 0; i < 3; i++ {
+			if i < len(ps) {
+				t.vals = append(t.vals, c10Val{"P(" + ps[i].canon + ")", fmt.Sprintf("New_%s_P%d(%s)", name, id, ps[i].goX), "constructor"})
+			}
+			if i < len(qs) {
+				t.vals = append(t.vals, c10Val{"Q(" + qs[i].canon + ")", fmt.Sprintf("New_%s_Q%d(%s)", name, id, qs[i].goX), "constructor"})
+			}
+			if i == 0 {
+				t.vals = append(t.vals, c10Val{"N", fmt.Sprintf("New_%s_N%d", name, id), "constructor"})
+			}
 		}
-		for _, v := range comps[1].small(2) {
-			t.vals = append(t.vals, c10Val{"Q(" + v.canon + ")", fmt.Sprintf("New_%s_Q%d(%s)", name, id, v.goX), "constructor"})
-		}
-		t.vals = append(t.vals, c10Val{"N", fmt.Sprintf("New_%s_N%d", name, id), "constructor"})
 	case 5: // generic union Opt<T>
 		t.kind = "generic-union"
 		t.fo = "Opt<" + comps[0].fo + ">"
 		t.gt = "Opt[" + comps[0].gt + "]"
-		for _, v := range comps[0].small(3) {
+		for i, v := range comps[0].smallPlus(3) {
 			t.vals = append(t.vals, c10Val{"Some(" + v.canon + ")", "New_Opt_Some[" + comps[0].gt + "](" + v.goX + ")", "constructor"})
+			if i == 0 {
+				t.vals = append(t.vals, c10Val{"None", "New_Opt_None[" + comps[0].gt + "]()", "constructor"})
+			}
 		}
-		t.vals = append(t.vals, c10Val{"None", "New_Opt_None[" + comps[0].gt + "]()", "constructor"})
 	case 6: // slice, every producer path
 		t.kind = "slice"
 		e := comps[0]
@@ -201,6 +228,10 @@ func c10Build(id int, k int, comps []*c10Type) *c10Type {
 		add(nil)
 		for _, a := range ev {
 			add([]c10Val{a})
+		}
+		if tw := e.smallPlus(1); len(tw) == 2 {
+			// one element that is the twin of the first element value: [x] and [x'] are equal
+			add([]c10Val{tw[1]})
 		}
 		for _, a := range ev {
 			for _, b := range ev {
@@ -258,6 +289,12 @@ func c10Build(id int, k int, comps []*c10Type) *c10Type {
 						c10Val{can(vs...), "slice.Map(" + idf + ", " + lit(vs...) + ")", "Map(long)"})
 				}
 			}
+		}
+	}
+	t.hasUnion = k == 4 || k == 5
+	for _, cp := range comps {
+		if cp.hasUnion {
+			t.hasUnion = true
 		}
 	}
 	return t
@@ -334,7 +371,7 @@ func checkC10(c *core.Ctx) {
 	if err != nil {
 		panic(err)
 	}
-	c.Set("rule", "types are enumerated by the choice-tree explorer (constructor x component types: pair, triple, record with upper-case fields, record with lower-case fields, union with payload and bare cases, generic union, slice) to the nesting depth; every type gets a small complete value domain, slices through every producer path (literal, slice.New, nil, Take, Skip, Tail, PopLast, Filter, Map, Append, PushLast, PushHead); for every slice type also related pairs (a value and what PopLast / Tail / Take k / Skip k and two-step chains derive from it - views of the same storage - and two derived values of one base with equal contents at different offsets), both operand orders; all ordered pairs of values of one type are compared through the transpiled Folang functions `a = b` and `a <> b` and through frt.OpEqual directly; distinct = distinct (type, value expression); non-trivial = composite value")
+	c.Set("rule", "types are enumerated by the choice-tree explorer (constructor x component types: pair, triple, record with upper-case fields, record with lower-case fields, union with payload and bare cases, generic union, slice) to the nesting depth; every type gets a small complete value domain, slices through every producer path (literal, slice.New, nil, Take, Skip, Tail, PopLast, Filter, Map, Append, PushLast, PushHead); for every slice type also related pairs (a value and what PopLast / Tail / Take k / Skip k and two-step chains derive from it - views of the same storage - and two derived values of one base with equal contents at different offsets), both operand orders; for types that contain a union the whole sweep is repeated in 2 further PROCESSES with the value order rotated, so that the first value ever compared at a type is of another case (an equality that remembers something per type from the first value it sees); all ordered pairs of values of one type are compared through the transpiled Folang functions `a = b` and `a <> b` and through frt.OpEqual directly; distinct = distinct (type, value expression); non-trivial = composite value")
 	c.Assumption("reference equality: two values are equal iff their canonical descriptions (structure and contents, independent of the producer) are equal")
 	depth := 2
 	if c.Thorough() {
@@ -422,7 +459,7 @@ func c10RunChunk(c *core.Ctx, sc *impl.Scratch, fc string, leaves, types []*c10T
 			}
 			gov.WriteString("}\n")
 		}
-		fmt.Fprintf(&gov, "\t\tregister(&typ{id: %d, kind: %q, fo: %q, n: len(vals), canon: canon, how: how,\n", t.id, t.kind, t.fo)
+		fmt.Fprintf(&gov, "\t\tregister(&typ{id: %d, kind: %q, fo: %q, n: len(vals), canon: canon, how: how, hasUnion: %v,\n", t.id, t.kind, t.fo, t.hasUnion)
 		fmt.Fprintf(&gov, "\t\t\teq: func(i, j int) bool { return eq_%d(vals[i], vals[j]) },\n", t.id)
 		fmt.Fprintf(&gov, "\t\t\tne: func(i, j int) bool { return ne_%d(vals[i], vals[j]) },\n", t.id)
 		gov.WriteString("\t\t\tdirect: func(i, j int) bool { return frt.OpEqual(vals[i], vals[j]) },\n")
